@@ -354,6 +354,20 @@ func ruleR10(c *Ctx) *RuleResult {
 	self(avl+".Tree", "remove", muAVLSign, true)
 	for _, it := range p.T.RevIters {
 		tk := p.TypeKey(it)
+		// First/Last: when the two are not literal mirror images but each is (decided by symbolic evaluation, itersem.go) the
+		// composition Begin;Next resp. End;Prev, they are mirror images because those parts are (their own obligations)
+		if ms := methodsOf(p, it); ms["First"] != nil && ms["Last"] != nil {
+			if ok, und, _ := twinCheck(c, ms["First"], ms["Last"], muFirstLast); !ok && !und {
+				ownerF, ownerT := iterOwner(p, it)
+				eq1, _ := firstIsComposition(c, it, ms["First"], ms["Begin"], ms["Next"], ownerF, ownerT)
+				eq2, _ := firstIsComposition(c, it, ms["Last"], ms["End"], ms["Prev"], ownerF, ownerT)
+				if eq1 && eq2 {
+					r.ok(tk+".First/Last", clause, p.FuncPos(ms["Last"]), "First ≡ Begin;Next and Last ≡ End;Prev by symbolic evaluation; Begin/End and Next/Prev are mirror images by their own obligations")
+					twin(tk, "NextTo", "PrevTo", muNextPrevTo)
+					continue
+				}
+			}
+		}
 		twin(tk, "First", "Last", muFirstLast)
 		twin(tk, "NextTo", "PrevTo", muNextPrevTo)
 	}
